@@ -105,6 +105,9 @@ def check_a(run, f, rule='R2a'):
     if not valued:
         return
     subj = f.key
+    if f.name == '_import' and f.cls is not None and f.key not in OPTIONAL_RESULT:
+        run.info(rule, subj, 'optional-result', '_import protocol: None = invalid value; callers are checked by R5', f=f)
+        return
     if f.key in OPTIONAL_RESULT:
         run.info(rule, subj, 'optional-result', 'in the optional-result table: ' + OPTIONAL_RESULT[f.key], f=f)
         return
